@@ -8,11 +8,17 @@ Correspondence (same questions to the hooked implementation and to the Lean mode
                 real `parse_line_number_format` + `make_placeholder_regex`  vs  `Blame.PF.parseBlameFormat` /
                 `Blame.PF.parseFormat` (format strings generated over the whole placeholder grammar
                 `{label[:[[fill]align][width][.precision][[_]type]]}` and near-grammar mutations of them)
-  blame.stream  real `StateMachine::handle_blame_line` vs  `Blame.stream` / `Blame.run`
-                (exhaustive key histories <= 6 lines over 3 keys x palettes of 2 and 3 colours,
-                 random longer ones, lines coloured by git mixed in)
+  blame.stream  real `StateMachine::handle_blame_line` vs  `BlameFlow.streamF` (the data flow of `is_repeat` —
+                which expression blanks the metadata, reaches `get_color`, reaches the line-number formatter,
+                and the `StateMachine` fields kept between lines — is translated from the source on every run:
+                tools/extractors/blameflow.py -> Generated/BlameFlow.lean)
+                (exhaustive key histories <= 6 lines over 3 keys x palettes of 2 and 3 colours; exhaustive key
+                 histories <= 4 lines over 2 keys x every sequence of line-number steps +1 / +7 / -2 / 0;
+                 random longer ones numbered consecutively, as several -L ranges, out of order, repeating,
+                 descending, as a second listing, with -n / -M / -C original-number columns, near usize::MAX;
+                 lines coloured by git mixed in)
   binary        whole blame streams through the real delta (`delta ... git blame f` with a stub
-                `git`, or stdin with the calling process pinned) vs `Blame.stream`
+                `git`, or stdin with the calling process pinned) vs `BlameFlow.streamF`, same numberings
 
 Direct oracle (written against the property text, shares nothing with the model): decoded
 background colour and visible text of every output row of the real binary (and of the hook
@@ -1326,7 +1332,10 @@ def part_format(ctx, rep, hook, mdl, widths, cdata):
 def run(ctx, rep):
     rep.rule = ("blame lines generated from (commit, author, time, file column, number, code) with boundary commits, renamed-file "
                 "columns, authors with blanks/parentheses/accents/wide chars/one char, many time zones; streams = runs of "
-                "1-6 commits over 1-60 lines; 6 blame formats x 5 separator formats x palettes of 2-5 colours (and the default); "
+                "1-6 commits over 1-60 lines; line numbers consecutive (two thirds) or as several -L ranges with forward gaps "
+                "(cuts also inside one commit), ranges out of order, repeated numbers, random, descending, a second listing, "
+                "-n/-M/-C original-number columns that jump, numbers up to usize::MAX; "
+                "6 blame formats x 5 separator formats x palettes of 2-5 colours (and the default); "
                 "blame format strings generated over the whole placeholder grammar {label[:[[fill]align][width][.precision][[_]type]]} "
                 "(1-4 placeholders incl. {commit}, every shape bare / align-only / width-only / precision-only / width.precision, "
                 "fills incl. braces and digits, types, literal text with braces between) through the binary, the Config and the "
@@ -1343,8 +1352,13 @@ def run(ctx, rep):
     hook = ctx.hook({"DELTA_VERIF_HOOK_CALLER": "git blame f.txt"})
     mdl = ctx.model("drv_blame") if ctx.drivers_ok else None
     if mdl is not None:
-        v = mdl.ask(["blame.variant", "blame.arms_total", "blame.default_items"])
+        v = mdl.ask(["blame.variant", "blame.arms_total", "blame.default_items", "blame.flow"])
         rep.notes["model_variant"] = dict(author_mode_and_pad_arith=v[0], get_color_arms=v[1])
+        fl = v[3].split()
+        if len(fl) == 5 and fl[0] == "ok":
+            # the data flow of `is_repeat` as translated from the source (Generated/BlameFlow.lean)
+            rep.notes["is_repeat_flow"] = dict(source=unx(fl[1]), usize_registers=int(fl[2]), string_registers=int(fl[3]),
+                                               untranslated_conditions=int(fl[4]))
         # `Blame.defaultItems` (used by default_key_determines_commit) = what the implementation makes of
         # the default --blame-format
         d = hook.ask([cfg_line([]), "blame.format_data"], sticky=[0])[1]
